@@ -51,7 +51,16 @@ def gen_cases(rng, tier, drift):
             cfg["persistent"] = True
         if cfg["kind"] == "map" and cfg["n"] > 0 and rng.random() < 0.6:
             cfg["shuffle"], cfg["gseed"] = True, rng.randint(0, 999)
+        elif cfg["kind"] == "map" and cfg["n"] > 0 and rng.random() < 0.6:
+            # the library's own stateful RandomSampler, with replacement (32-chunks) or more samples than items
+            repl = rng.random() < 0.5
+            cfg["sampler"] = dict(replacement=repl, num_samples=rng.choice([None, cfg["n"] + rng.randint(1, 9), 40, 70]) if not repl else rng.choice([35, 50, 70]))
+            cfg["gseed"] = rng.randint(0, 999)
         L = len(si.batches_ref(cfg))
+        if cfg.get("sampler"):
+            ns = cfg["sampler"]["num_samples"] or cfg["n"]
+            bs = cfg["bs"] or 1
+            L = ns // bs if (cfg["drop"] and cfg["bs"]) else -(-ns // bs)
         k = rng.choice([0, L, rng.randint(0, L), rng.randint(0, L)])
         chain, pos = [], k
         for _ in range(rng.choice([0, 1, 2])):
